@@ -146,6 +146,10 @@ type Case struct {
 	HS      string   // ok | wrongname | untrusted | garbage | stall
 	Script  []string // ok | drop | stall | <code> | <code>b (base64 text) | <code>e (empty text)
 	Msgs    []int    // recipients per message
+	// a fallback port is configured (WithTLSPortPolicy / WithSSLPort(true) instead of WithTLSPolicy / WithSSL); Refuse:
+	// the first Refuse attempts of the dial function fail (in-memory transport only)
+	Fallback bool
+	Refuse   int
 }
 
 func list(l []string) string {
@@ -178,13 +182,17 @@ func (c Case) Args() []string {
 		}
 		return "0"
 	}
-	return []string{c.Policy, b(c.SSL), hx.Hex([]byte(c.Auth)), c.Custom, hx.Hex([]byte(c.Host)), b(c.NoNoop), mute,
+	args := []string{c.Policy, b(c.SSL), hx.Hex([]byte(c.Auth)), c.Custom, hx.Hex([]byte(c.Host)), b(c.NoNoop), mute,
 		hx.HexList(caps), hx.HexList(capst), c.HS, list(c.Script), list(ms)}
+	if c.Fallback || c.Refuse > 0 {
+		args = append(args, b(c.Fallback), strconv.Itoa(c.Refuse))
+	}
+	return args
 }
 
 func Parse(kind string, a []string) (Case, error) {
-	if len(a) != 12 {
-		return Case{}, fmt.Errorf("case needs 12 arguments, has %d", len(a))
+	if len(a) != 12 && len(a) != 14 {
+		return Case{}, fmt.Errorf("case needs 12 or 14 arguments, has %d", len(a))
 	}
 	c := Case{Kind: kind, Policy: a[0], SSL: a[1] == "1", Auth: string(hx.UnHex(a[2])), Custom: a[3], Host: string(hx.UnHex(a[4])),
 		NoNoop: a[5] == "1", Mute: -1, HS: a[9]}
@@ -205,6 +213,10 @@ func Parse(kind string, a []string) (Case, error) {
 			n, _ := strconv.Atoi(x)
 			c.Msgs = append(c.Msgs, n)
 		}
+	}
+	if len(a) == 14 {
+		c.Fallback = a[12] == "1"
+		c.Refuse, _ = strconv.Atoi(a[13])
 	}
 	return c, nil
 }
@@ -318,6 +330,8 @@ func (o Obs) Observable(c Case) string {
 	return fmt.Sprintf("%s closes=%d open=%d arm=%s srv=%s", rs, o.Closes, b(o.Opened && !o.Closed), o.Arm, o.Srv)
 }
 
+var errDialRefused = errors.New("dialx: connection refused (scripted)")
+
 // Classify maps an error of the go-mail API to the model's error class.
 func Classify(err error) string {
 	if err == nil {
@@ -333,6 +347,8 @@ func Classify(err error) string {
 	var rh tls.RecordHeaderError
 	msg := err.Error()
 	switch {
+	case errors.Is(err, errDialRefused):
+		return "dialfail"
 	case errors.Is(err, smtp.ErrUnencrypted):
 		return "unenc"
 	case errors.Is(err, smtp.ErrWrongHostname):
@@ -421,7 +437,12 @@ func Bound(timeout time.Duration) time.Duration {
 }
 
 // Run executes one case against the real client.
-func Run(c Case, p *PKI, timeout time.Duration) (Obs, error) {
+func Run(c Case, p *PKI, timeout time.Duration) (Obs, error) { return RunWith(c, p, timeout, nil) }
+
+// RunWith is Run with a client that the caller configures: build receives the transport options (the dial function of
+// the in-memory transport) and returns the client; the configuration fields of the case then only describe what the
+// model is to assume.
+func RunWith(c Case, p *PKI, timeout time.Duration, build func(transport ...mail.Option) (*mail.Client, error)) (Obs, error) {
 	var o Obs
 	script := make([]smtpx.Decision, len(c.Script))
 	for i, s := range c.Script {
@@ -461,15 +482,15 @@ func Run(c Case, p *PKI, timeout time.Duration) (Obs, error) {
 	}
 
 	opts := []mail.Option{mail.WithTimeout(timeout), mail.WithHELO(HeloName)}
-	switch c.Policy {
-	case "M":
-		opts = append(opts, mail.WithTLSPolicy(mail.TLSMandatory))
-	case "O":
-		opts = append(opts, mail.WithTLSPolicy(mail.TLSOpportunistic))
-	case "N":
-		opts = append(opts, mail.WithTLSPolicy(mail.NoTLS))
-	default:
+	pol := map[string]mail.TLSPolicy{"M": mail.TLSMandatory, "O": mail.TLSOpportunistic, "N": mail.NoTLS}
+	if _, ok := pol[c.Policy]; !ok {
 		return o, fmt.Errorf("unknown policy %q", c.Policy)
+	}
+	opts = append(opts, mail.WithTLSPolicy(pol[c.Policy]))
+	if c.Fallback {
+		// a public way to a fallback port that leaves useSSL alone: WithTLSPortPolicy(TLSOpportunistic) on the default
+		// port (port 587, fallback 25); the policy is then set (again) to what the case says
+		opts = append(opts, mail.WithTLSPortPolicy(mail.TLSOpportunistic), mail.WithTLSPolicy(pol[c.Policy]))
 	}
 	if c.Custom != "-" {
 		a := customAuth(c.Custom, c.Host)
@@ -488,6 +509,7 @@ func Run(c Case, p *PKI, timeout time.Duration) (Obs, error) {
 		opts = append(opts, mail.WithoutNoop())
 	}
 
+	var topts []mail.Option
 	var memClient *smtpx.Conn
 	var tap *tapConn
 	var ln net.Listener
@@ -519,9 +541,14 @@ func Run(c Case, p *PKI, timeout time.Duration) (Obs, error) {
 			}
 			srv.Serve(sc)
 		}()
-		opts = append(opts, mail.WithSSL(), mail.WithPort(port))
+		topts = append(topts, mail.WithSSL(), mail.WithPort(port))
 	} else {
-		opts = append(opts, mail.WithDialContextFunc(func(ctx context.Context, network, address string) (net.Conn, error) {
+		attempts := 0
+		topts = append(topts, mail.WithDialContextFunc(func(ctx context.Context, network, address string) (net.Conn, error) {
+			attempts++
+			if attempts <= c.Refuse {
+				return nil, errDialRefused
+			}
 			cl, sv := smtpx.NewPair()
 			memClient = cl
 			rawMu.Lock()
@@ -535,7 +562,13 @@ func Run(c Case, p *PKI, timeout time.Duration) (Obs, error) {
 			return cl, nil
 		}))
 	}
-	client, err := mail.NewClient(c.Host, opts...)
+	var client *mail.Client
+	var err error
+	if build != nil {
+		client, err = build(topts...)
+	} else {
+		client, err = mail.NewClient(c.Host, append(opts, topts...)...)
+	}
 	if err != nil {
 		if ln != nil {
 			ln.Close()
@@ -622,6 +655,15 @@ func Run(c Case, p *PKI, timeout time.Duration) (Obs, error) {
 		o.Closed, o.Closes = memClient.Closed()
 	}
 	close(release)
+	if !c.SSL && memClient == nil {
+		// every dial attempt was refused: no connection, no server
+		o.Results, o.Phase = oc.results, oc.phase
+		if oc.first != nil {
+			o.Err = oc.first.Error()
+		}
+		o.Srv, o.Arm = "-", "|-"
+		return o, nil
+	}
 	if o.Hung {
 		srv.Finish(0)
 		if memClient != nil {
